@@ -50,7 +50,8 @@ func (ups *Socket) Connect(manager cert.TlsConfig, mustSecure bool) error {
 		if h := ups.Address.Hostname(); h != "" && tlsConfig.ServerName == "" {
 			tlsConfig.ServerName = h
 		}
-		c, err = tls.Dial(n.Network(), n.String(), tlsConfig)
+		// the dialer's timeout covers the TLS handshake as well
+		c, err = tls.DialWithDialer(&net.Dialer{Timeout: socketace.HandshakeTimeout}, n.Network(), n.String(), tlsConfig)
 	} else {
 		a.Scheme = addr.PlusEnd.ReplaceAllString(a.Scheme, "")
 		log.Debugf("Dialing plain %s", a.String())
